@@ -498,6 +498,25 @@ def scn_transformed_linear(T, case):
     C11.scn_linear(Renamed(T, "C11.", "C08.transform."), case)
 
 
+# ------------------------------------------------------------------------------------ a second run of the same optimizer object
+def cases_restart(tier):
+    from contracts import C07
+
+    for cid, c in C07.cases_start(tier):
+        if c["K"]:
+            yield cid, c
+
+
+def scn_restart(T, case):
+    """'The normalized constraint functions equal the configured constraint at the point asked for' in EVERY run of an optimizer
+    object: whatever an earlier run left in the caches - also one that ended with an exception -, the first constraint value handed out
+    in a new run is that of the new run (C07's base-case scenario under this property's prefix)."""
+    from contracts import C07
+    from contracts.reuse import Renamed
+
+    C07.scn_start(Renamed(T, "C07.start.", "C08.restart."), case)
+
+
 SCENARIOS = [
     Scenario("normalized_constraints", scn_normalized, cases_normalized, {"quick": 5, "thorough": 30}),
     Scenario("scipy_problem", scn_problem, cases_problem, {"quick": 3, "thorough": 15}),
@@ -505,6 +524,7 @@ SCENARIOS = [
     Scenario("rejection", scn_reject, cases_reject, {"quick": 1, "thorough": 1}),
     Scenario("validated_linear_constraints", scn_validated_linear_constraints, cases_validated_linear_constraints, {"quick": 2, "thorough": 10}),
     Scenario("linear_constraints_under_a_variable_transform", scn_transformed_linear, cases_transformed_linear, {"quick": 5, "thorough": 30}),
+    Scenario("constraints_of_a_second_run", scn_restart, cases_restart, {"quick": 3, "thorough": 20}),
 ]
 
 MANIFEST = {
